@@ -735,9 +735,9 @@ func (e *Env) evalCall(x *Expr) cval {
 				// untouched entry-state value: covered by the configuration well-formedness assumption
 				switch a.ct.Sort {
 				case "Ref":
-					return cval{Or(Not(Eq(a.t, "nilref")), Eq(a.t, p)), B}
+					return cval{Or(Not(Eq(a.t, "nilref")), p), B}
 				case "Val":
-					return cval{Or(And(Not(Eq(a.t, "nilval")), sx("vnn", a.t)), Eq(a.t, p)), B}
+					return cval{Or(And(Not(Eq(a.t, "nilval")), sx("vnn", a.t)), p), B}
 				}
 			}
 		}
@@ -870,6 +870,10 @@ func (e *Env) evalCall(x *Expr) cval {
 			e.errorf("callres: no call of %s recorded", x.Args[0].Str)
 			return cval{"nilval", CT{Sort: "Val"}}
 		}
+	case "moderr":
+		// moderr(err): err is non-nil and its dynamic type is declared in this module
+		a := argv(0)
+		return cval{Not(vc.notModuleErr(a.t)), B}
 	case "tgtvalid":
 		return cval{vc.tgtValid(e.st, argv(0).t), B}
 	case "b64urlDecode":
